@@ -166,6 +166,8 @@ func scenarios(tier string) (out []*Scenario) {
 	add(Scenario{Src: "kfalias", Args: []string{"KFD19"}, OnlyProps: []string{"C11"}})
 	add(Scenario{Src: "kfalias", Args: []string{"KFD20"}, OnlyProps: []string{"C12"}})
 	add(Scenario{Src: "kfalias", Args: []string{"KFD15"}, OnlyProps: []string{"C15"}})
+	add(Scenario{Src: "kfgi", Args: []string{"KFGI"}, OnlyProps: []string{"C16"}})
+	add(Scenario{Src: "kfgi", Args: []string{"KFGI"}, OnlyProps: []string{"C16"}, Fmt: "goimports"})
 	return out
 }
 
@@ -467,7 +469,7 @@ func (s2 *Stage2) crossFormatter() {
 	groups := map[string]*trio{}
 	var order []string
 	for _, sc := range s2.Scen {
-		if sc.Src == "rnd" || len(sc.OnlyProps) > 0 {
+		if sc.Src == "rnd" {
 			continue
 		}
 		k := fmt.Sprintf("%v|%v|%v|%s|%s|%s", sc.Stub, sc.SkipEnsure, sc.Resets, sc.PkgMode, sc.Src, strings.Join(sc.Args, "+"))
